@@ -1,7 +1,7 @@
 #!/usr/bin/env python3
 """Collects confirmed seeded changes from /tmp/seedout + /tmp/sc/results into /verif/seeded/<id>/<m>/."""
 import json, glob, os, shutil, sys
-for res in sorted(glob.glob('/tmp/sc/results/*.json')):
+for res in sorted(glob.glob('/tmp/sc/results/*.json'), key=os.path.getmtime):
     try:
         d = json.load(open(res))
     except Exception:
@@ -18,7 +18,7 @@ for res in sorted(glob.glob('/tmp/sc/results/*.json')):
     for f in glob.glob(seed + '/*'):
         if os.path.basename(f) in ('suite.log', 'suite_summary.txt'):
             continue
-        if os.path.isfile(f):
+        if os.path.isfile(f) and not (os.path.basename(f) == 'meta.json' and os.path.exists(os.path.join(dst, 'meta.json'))):
             shutil.copy(f, dst)
     meta = json.load(open(os.path.join(dst, 'meta.json')))
     conf = meta.get('confirmed', {})
@@ -28,7 +28,10 @@ for res in sorted(glob.glob('/tmp/sc/results/*.json')):
     checks = conf.get('checks', {})
     for k, v in d.items():
         if k.startswith('check_'):
+            prev = checks.get(k[6:])
             checks[k[6:]] = {'exit': v['exit'], 'wall_s': v['wall'], 'detected': v['exit'] == 1, 'first_lines': v['lines'][:2]}
+            if prev and (not prev.get('detected') or prev.get('missed_first')) and v['exit'] == 1:
+                checks[k[6:]]['missed_first'] = True  # an earlier version of the check did not catch it
     conf['checks'] = checks
     meta['confirmed'] = conf
     meta['breaks_property'] = meta.get('property', pid)
